@@ -311,44 +311,56 @@ mod extreme {
     use nexosim::simulation::{Mailbox, SimInit};
     use nexosim::time::MonotonicTime;
 
-    use crate::bench::to_ns;
-
     pub struct Rx {
-        pub log: Arc<Mutex<Vec<(u64, u64)>>>,
+        pub log: Arc<Mutex<Vec<(u64, MonotonicTime)>>>,
+        pub armed: Arc<Mutex<Option<bool>>>,
     }
     impl Rx {
         pub fn on(&mut self, uid: u64, cx: &mut Context<Self>) {
-            // Times near the end of the representable range do not fit in u64 ns.
-            let t = cx.time().duration_since(MonotonicTime::EPOCH);
-            let ns = if t.as_secs() < 1 << 32 { to_ns(cx.time()) } else { u64::MAX - 1 };
-            self.log.lock().unwrap().push((uid, ns));
+            self.log.lock().unwrap().push((uid, cx.time()));
         }
         /// Schedules a periodic event on itself through the model context.
         pub fn arm(&mut self, a: (u64, Duration, Duration), cx: &mut Context<Self>) {
             let r = cx.schedule_periodic_event(a.1, a.2, Rx::on, a.0);
-            self.log.lock().unwrap().push((u64::MAX, r.is_ok() as u64));
+            *self.armed.lock().unwrap() = Some(r.is_ok());
         }
     }
     impl Model for Rx {}
 
-    /// Periodic requests whose period is so large that `deadline + k * period`
-    /// leaves the representable range after k = 1 or 2 occurrences, through
-    /// every periodic entry point. Oracle (C08): an accepted request fires at
-    /// its deadline, every stepping call returns (a panic is not a return), a
-    /// later request is still served. Occurrences that are not representable
-    /// do not exist; whether such a period is accepted or rejected is not
-    /// judged.
-    pub fn case(api: u64, overflow_at: u64, threads: usize) -> Result<u64, (String, String)> {
+    /// Periodic requests with extreme periods through every periodic entry
+    /// point: `which` = 1: `Duration::MAX` (the second occurrence is not
+    /// representable), 2: about half the representable range (the third one is
+    /// not), 3: 2^64 ns + 5 s (about 584.5 years: every occurrence of a short
+    /// run is representable, but the period does not fit in 64 bits of
+    /// nanoseconds). Oracle (C08, C10): an accepted request fires exactly at
+    /// t0 + k * period for every representable k reached by the steps and at no
+    /// other time, every stepping call returns (a panic is not a return), a
+    /// later request is still served. Whether such a period is accepted or
+    /// rejected is not judged.
+    pub fn case(prop: &str, api: u64, which: u64, threads: usize) -> Result<u64, (String, String)> {
         crate::rec::reset(&Default::default());
         let log = Arc::new(Mutex::new(Vec::new()));
+        let armed = Arc::new(Mutex::new(None));
         let mb: Mailbox<Rx> = Mailbox::new();
         let addr = mb.address();
-        let (mut simu, sched) = SimInit::with_num_threads(threads).add_model(Rx { log: log.clone() }, mb, "rx").init(MonotonicTime::EPOCH).map_err(|e| ("C08/extreme-init-failed".to_string(), format!("{:?}", e)))?;
+        let (mut simu, sched) = SimInit::with_num_threads(threads).add_model(Rx { log: log.clone(), armed: armed.clone() }, mb, "rx").init(MonotonicTime::EPOCH).map_err(|e| (format!("{}/extreme-init-failed", prop), format!("{:?}", e)))?;
         let d = Duration::from_secs(1);
-        // k = 1: the first re-insertion overflows; k = 2: the second one does.
-        let period = if overflow_at == 1 { Duration::MAX } else { Duration::from_secs(i64::MAX as u64 / 2 + 1000) };
+        let period = match which {
+            1 => Duration::MAX,
+            2 => Duration::from_secs(i64::MAX as u64 / 2 + 1000),
+            _ => Duration::from_nanos(u64::MAX) + Duration::from_nanos(1) + Duration::from_secs(5),
+        };
+        // Representable occurrences among the first three.
+        let t0 = MonotonicTime::EPOCH + d;
+        let mut expected = vec![t0];
+        while expected.len() < 3 {
+            match expected.last().unwrap().checked_add(period) {
+                Some(t) => expected.push(t),
+                None => break,
+            }
+        }
         let names = ["Scheduler::schedule_periodic_event", "Scheduler::schedule_keyed_periodic_event", "Scheduler::schedule(EventSource::periodic_event)", "Scheduler::schedule(EventSource::keyed_periodic_event)", "Context::schedule_periodic_event"];
-        let what = format!("{} with deadline 1 s and period {:?} ({} executor thread(s))", names[api as usize], period, threads);
+        let what = format!("{} with first deadline t0+1s and period {:?} ({} executor thread(s))", names[api as usize], period, threads);
         let mut src: EventSource<u64> = EventSource::new();
         src.connect(Rx::on, &addr);
         let mut keys = Vec::new();
@@ -361,14 +373,11 @@ mod extreme {
                 keys.push(k);
                 sched.schedule(d, a).is_ok()
             }
-            _ => {
-                let r = simu.process_event(Rx::arm, (7, d, period), &addr);
-                r.is_ok() && log.lock().unwrap().iter().any(|e| *e == (u64::MAX, 1))
-            }
+            _ => simu.process_event(Rx::arm, (7, d, period), &addr).is_ok() && *armed.lock().unwrap() == Some(true),
         }));
         let accepted = match accepted {
             Ok(a) => a,
-            Err(_) => return Err(("C08/scheduling-call-panicked".into(), format!("{}: the scheduling call panicked", what))),
+            Err(_) => return Err((format!("{}/scheduling-call-panicked", prop), format!("{}: the scheduling call panicked", what))),
         };
         if !accepted {
             return Ok(0);
@@ -377,37 +386,60 @@ mod extreme {
         for k in 0..3u64 {
             let r = catch_unwind(AssertUnwindSafe(|| simu.step()));
             match r {
-                Err(_) => return Err(("C08/stepping-call-panicked-after-accepted-request".into(), format!("{}: the request was accepted, then step() number {} panicked instead of returning (fired so far: {:?})", what, k + 1, log.lock().unwrap().iter().filter(|e| e.0 == 7).collect::<Vec<_>>()))),
-                Ok(Err(e)) => return Err(("C08/stepping-failed-after-accepted-request".into(), format!("{}: step() number {} returned {:?}", what, k + 1, e))),
+                Err(_) => return Err((format!("{}/stepping-call-panicked-after-accepted-request", prop), format!("{}: the request was accepted, then step() number {} panicked instead of returning (fired so far: {:?})", what, k + 1, log.lock().unwrap().iter().filter(|e| e.0 == 7).collect::<Vec<_>>()))),
+                Ok(Err(e)) => return Err((format!("{}/stepping-failed-after-accepted-request", prop), format!("{}: step() number {} returned {:?}", what, k + 1, e))),
                 Ok(Ok(())) => steps += 1,
             }
         }
-        let fired: Vec<u64> = log.lock().unwrap().iter().filter(|e| e.0 == 7).map(|e| e.1).collect();
-        if fired.first() != Some(&1_000_000_000) {
-            return Err(("C08/accepted-request-never-fired".into(), format!("{}: accepted, but the occurrences processed are {:?} (the first one is due at 1 s)", what, fired)));
-        }
-        if fired.len() as u64 > overflow_at {
-            return Err(("C08/accepted-request-fired-more-than-once".into(), format!("{}: {} occurrences processed ({:?}) although only {} are representable", what, fired.len(), fired, overflow_at)));
+        let fired: Vec<MonotonicTime> = log.lock().unwrap().iter().filter(|e| e.0 == 7).map(|e| e.1).collect();
+        if fired != expected {
+            let sig = if fired.is_empty() { "accepted-request-never-fired" } else if fired.len() > expected.len() { "extra-periodic-occurrence" } else { "periodic-occurrence-at-wrong-time" };
+            return Err((format!("{}/{}", prop, sig), format!("{}: three steps processed occurrences at {:?}; t0 + k * period gives {:?}", what, fired, expected)));
         }
         // The simulation and its scheduler must still be usable.
         let later = catch_unwind(AssertUnwindSafe(|| sched.schedule_event(Duration::from_secs(5), Rx::on, 9, &addr).is_ok()));
         match later {
             Ok(true) => {}
-            Ok(false) if overflow_at == 2 => {} // time is already close to the end of the representable range
-            Ok(false) => return Err(("C08/later-request-rejected".into(), format!("{}: a later valid request was rejected", what))),
-            Err(_) => return Err(("C08/scheduling-call-panicked".into(), format!("{}: a later scheduling call panicked (poisoned scheduler queue?)", what))),
+            Ok(false) if which != 1 => {} // time may be close to the end of the representable range
+            Ok(false) => return Err((format!("{}/later-request-rejected", prop), format!("{}: a later valid request was rejected", what))),
+            Err(_) if which != 1 => {} // now + 5 s may not be representable any more (documented panic of the time arithmetic)
+            Err(_) => return Err((format!("{}/scheduling-call-panicked", prop), format!("{}: a later scheduling call panicked (poisoned scheduler queue?)", what))),
         }
-        if overflow_at == 1 {
+        if which == 1 {
             match catch_unwind(AssertUnwindSafe(|| simu.step())) {
                 Ok(Ok(())) => {}
-                other => return Err(("C08/stepping-call-panicked-after-accepted-request".into(), format!("{}: the step serving a later request did not return Ok: {:?}", what, other.map_err(|_| "panicked")))),
+                other => return Err((format!("{}/stepping-call-panicked-after-accepted-request", prop), format!("{}: the step serving a later request did not return Ok: {:?}", what, other.map_err(|_| "panicked")))),
             }
             if !log.lock().unwrap().iter().any(|e| e.0 == 9) {
-                return Err(("C08/accepted-request-never-fired".into(), format!("{}: the later request never fired", what)));
+                return Err((format!("{}/accepted-request-never-fired", prop), format!("{}: the later request never fired", what)));
             }
         }
         drop(keys);
         Ok(steps)
+    }
+}
+
+/// Extreme-period cases (shared by C08 `grid` and C10 `extreme`).
+pub fn extreme_cases(rep: &mut Report, opts: &Opts, prop: &str, part: &str) {
+    let mut case = 0u64;
+    for api in 0..5u64 {
+        for which in [1u64, 2, 3] {
+            for threads in [1usize, 2] {
+                case += 1;
+                if !opts.mine(case) {
+                    continue;
+                }
+                rep.evaluations += 1;
+                match extreme::case(prop, api, which, threads) {
+                    Ok(n) => {
+                        rep.count("extreme_period_requests_judged", 1);
+                        rep.count("extreme_period_steps", n);
+                        rep.distinct.insert(h2(0xE7, case));
+                    }
+                    Err((sig, detail)) => rep.violation(sig, format!("[{}/extreme] {}", part, detail), format!("{} --exec 0", opts.replay_args(part, 1_000_000 + case))),
+                }
+            }
+        }
     }
 }
 
@@ -425,26 +457,7 @@ pub fn run(opts: &Opts) -> Report {
         sim::run_family(&mut rep, opts, &FamilyRun { prop: "C08", part: "grid", cases: opts.n(if cfg!(miri) { 4 } else { 400 }, 10000), gen: &|s| gen::gen_timer(s, &to), set: ExecSet::StOnly, pools: &[], nontrivial: &|s, _| s.sched_rejected > 0 && s.sched_ok > 0, predict: true, also: &[] });
     }
     if want("grid") && !cfg!(miri) {
-        // Extreme periods (the occurrence after next is not representable).
-        let mut case = 0u64;
-        for api in 0..5u64 {
-            for overflow_at in [1u64, 2] {
-                for threads in [1usize, 2] {
-                    case += 1;
-                    if !opts.mine(case) {
-                        continue;
-                    }
-                    rep.evaluations += 1;
-                    match extreme::case(api, overflow_at, threads) {
-                        Ok(n) => {
-                            rep.count("extreme_period_requests_judged", 1);
-                            rep.count("extreme_period_steps", n);
-                        }
-                        Err((sig, detail)) => rep.violation(sig, format!("[grid/extreme] {}", detail), format!("{} --exec 0", opts.replay_args("grid", 1_000_000 + case))),
-                    }
-                }
-            }
-        }
+        extreme_cases(&mut rep, opts, "C08", "grid");
     }
     if want("threads") {
         let n = if cfg!(miri) { 2 } else { opts.n(480, 4800) };
